@@ -133,14 +133,16 @@ class Scenario(object):
         body_sig, body = b"s" + body_sig, [marker] + body
         if len(body_sig) > 200:
             body_sig, body = b"s", [marker]
+        order = rng.choice("lB")
         if k == "signal":
-            return h.build(4, path=b"/x", iface=b"com.example.H", member=b"S", dest=self.b2.unique, sig=body_sig, body=body)
+            return h.build(4, path=b"/x", iface=b"com.example.H", member=b"S", dest=self.b2.unique, sig=body_sig, body=body, order=order)
         if k == "call-echo":
-            return h.build(1, path=b"/echo", iface=b"com.example.Echo", member=b"Other", dest=ECHO, sig=body_sig, body=body, flags=1)
+            return h.build(1, path=b"/echo", iface=b"com.example.Echo", member=b"Other", dest=ECHO, sig=body_sig, body=body, flags=1,
+                           order=order)
         if k == "call-driver":
             return h.build(1, path=b"/org/freedesktop/DBus", iface=b"org.freedesktop.DBus", member=b"NameHasOwner",
-                           dest=b"org.freedesktop.DBus", sig=b"s", body=[b"com.example." + marker])
-        return h.build(4, path=b"/x", iface=b"com.example.H", member=b"B", sig=body_sig, body=body)
+                           dest=b"org.freedesktop.DBus", sig=b"s", body=[b"com.example." + marker], order=order)
+        return h.build(4, path=b"/x", iface=b"com.example.H", member=b"B", sig=body_sig, body=body, order=order)
 
     # -- attacks ------------------------------------------------------------------------------
     def attack_corrupt(self):
@@ -190,6 +192,45 @@ class Scenario(object):
                                    {"hex": bad.hex()[:3000]})
                 outcome = "valid-disconnected"
         self.part.sig("corrupt", cls.split(":")[0], v.kind, (v.reason or "").split(":")[0], outcome)
+        h.close()
+
+    def attack_reserved(self):
+        """Messages on the reserved interface / path org.freedesktop.DBus.Local (which the library uses for its own
+        synthetic Disconnected notification) arriving from the wire, in both byte orders: the specification says the
+        reference bus disconnects any application that sends one, and nothing of it may reach anybody else."""
+        rng = self.rng
+        h = self.hostile(hello=rng.random() < 0.8)
+        marker = b"MK%016xK" % rng.getrandbits(64)
+        order = rng.choice("lB")
+        shape = rng.choice(["forged-disconnected", "forged-disconnected", "local-iface", "local-path", "local-call", "local-to-bus"])
+        if shape == "forged-disconnected":
+            kw = dict(mtype=4, path=wire.LOCAL_PATH, iface=wire.LOCAL_IFACE, member=b"Disconnected")
+            if rng.random() < 0.3:
+                kw.update(sig=b"s", body=[marker])
+        elif shape == "local-iface":
+            kw = dict(mtype=4, path=b"/x", iface=wire.LOCAL_IFACE, member=rng.choice([b"Disconnected", b"X"]), sig=b"s", body=[marker],
+                      dest=rng.choice([None, self.b2.unique]))
+        elif shape == "local-path":
+            kw = dict(mtype=4, path=wire.LOCAL_PATH, iface=b"com.example.H", member=rng.choice([b"Disconnected", b"X"]), sig=b"s",
+                      body=[marker], dest=rng.choice([None, self.b2.unique]))
+        elif shape == "local-call":
+            kw = dict(mtype=1, path=rng.choice([b"/echo", wire.LOCAL_PATH]), iface=wire.LOCAL_IFACE, member=b"Disconnected", dest=ECHO,
+                      sig=b"s", body=[marker])
+        else:
+            kw = dict(mtype=1, path=wire.LOCAL_PATH, iface=rng.choice([wire.LOCAL_IFACE, b"org.freedesktop.DBus"]), member=b"GetId",
+                      dest=b"org.freedesktop.DBus")
+        mtype = kw.pop("mtype")
+        serial, data = h.build(mtype, order=order, **kw)
+        self.steps.append("reserved %s order=%s hex=%s" % (shape, order, data.hex()[:600]))
+        self.part.count("attack:reserved")
+        self.part.count("attack:reserved:order-" + order)
+        try:
+            h.send_msg(data, serial, chunks=rng.choice([None, [16], [1, 3, 12]]))
+        except client.Closed:
+            pass
+        self.markers.append(marker)
+        ok = self.expect_eof(h, shape, "reserved-local-name:" + ("big-endian" if order == "B" else "little-endian"))
+        self.part.sig("reserved", shape, order, "eof" if ok else "no-eof")
         h.close()
 
     def attack_sizes(self):
@@ -424,7 +465,8 @@ class Scenario(object):
         self.bystander_roundtrip("startup")
         n = rng.randint(20, 60)
         attacks = [(self.attack_corrupt, 10), (self.attack_sizes, 2), (self.attack_preauth, 3), (self.attack_flood, 1),
-                   (self.attack_incomplete_conns, 1), (self.attack_prefix_close, 3), (self.attack_driver_fuzz, 3)]
+                   (self.attack_incomplete_conns, 1), (self.attack_prefix_close, 3), (self.attack_driver_fuzz, 3),
+                   (self.attack_reserved, 2)]
         pool = [a for a, w in attacks for _ in range(w)]
         for _ in range(n):
             if not self.daemon.alive():
